@@ -934,7 +934,7 @@ func main() {
 			if tier == "thorough" {
 				return 18 * time.Minute
 			}
-			return 70 * time.Second
+			return 4 * time.Minute
 		},
 		Run: run, Replay: replay,
 		Evidence: func(m *lib.Merged) map[string]any {
